@@ -22,7 +22,21 @@ ORACLES = [oracles.BoxOracle]
 valid = None
 
 def gen_plan(seed, tier):
-    return solverplan.gen_solver_plan(seed, tier, ID, KNOBS)
+    plan = solverplan.gen_solver_plan(seed, tier, ID, KNOBS)
+    # a hostile constraint makes mystic's and_(constraints, bounds) loop up to 100x per cost call: keep
+    # run-to-default-limits Solves out of those plans (cost, not a hang) by bounding the generations
+    ops = plan['ops']
+    hostile = any(o['op'] == 'set' and o['what'] == 'constraint' and (o.get('arg') or {}).get('family', '').startswith('push')
+                  for o in ops)
+    if hostile and any(o['op'] == 'solve' for o in ops):
+        first = next(i for i, o in enumerate(ops) if o['op'] in ('step', 'solve'))
+        has = any(o['op'] == 'set' and o['what'] == 'limits' and o['arg'][0] is not None for o in ops[:first])
+        if not has:
+            ops.insert(first, {'op': 'set', 'what': 'limits', 'arg': [10 + seed % 31, None, False]})
+        for o in ops[first + 1:]:
+            if o['op'] == 'set' and o['what'] == 'limits' and o['arg'][0] is None:
+                o['arg'][0] = 10 + seed % 17
+    return plan
 
 def run_plan(plan):
     return solverplan.run_solver_plan(plan, ORACLES)
